@@ -6,13 +6,13 @@ CONSTANTS
   Bug = "none"
   MaxSteps = 10
   MaxEditRun = 4
-  Acts = {"Write", "Chmod", "Delete", "FileToDir", "DirToFile", "RmTree", "Symlink", "Snapshot", "CheckOut"}
+  Acts = {"Write", "Chmod", "Delete", "Mkfifo", "FileToDir", "DirToFile", "RmTree", "Symlink", "Snapshot", "CheckOut"}
   EditPaths <- AllEditPaths
   Contents = {1, 2}
   SymTargets = {"out", "f"}
   RootIgnore = {1, 2, 3, 4, 7}
   DirIgnore = {3, 5, 6}
-  TreeIds = {3, 7, 8, 9, 10}
+  TreeIds = {3, 7, 8, 9, 10, 11, 12, 13}
   SparseIds = {1, 2, 3, 4, 5, 6}
   XP = "respect"
   Strict = FALSE
